@@ -475,12 +475,17 @@ def run(db, chk):
     cases.append((5, [[0, 1, 2], [2, 1, 3]], "two triangles and an isolated node"))
     if thorough:
         cases.append((5, [[0, 1, 2], [2, 1, 3], [4, 0, 2]], "three triangles (one obtuse)"))
-    for (n, tris, label) in cases:
+    FLAT = [(0.0, 0.0), (4.0, 0.0), (2.0, 0.2), (2.0, -3.0), (9.0, 9.0)]
+    cases.append((3, [[0, 1, 2]], "single flat (very obtuse) triangle: negative circumcentric shares", FLAT))
+    cases.append((3, [[1, 0, 2]], "single flat (very obtuse) triangle, clockwise", FLAT))
+    cases.append((4, [[0, 1, 2], [1, 0, 3]], "flat triangle on top of an acute one", FLAT))
+    for case in cases:
+        (n, tris, label) = case[:3]
         n_sc += 1
         w = MeshWorld(unit)
         it = Interp(w, max_steps=5000000)
         this = new_mesh(n)
-        reps = [(0.0, 0.0), (1.3, 0.1), (0.4, 1.1), (1.6, 1.4), (-2.5, 0.6)]
+        reps = case[3] if len(case) > 3 else [(0.0, 0.0), (1.3, 0.1), (0.4, 1.1), (1.6, 1.4), (-2.5, 0.6)]
         pts = points_array(n, reps)
         tarr = int_array(tris, 3, "triangles")
         bad = []
@@ -544,4 +549,7 @@ def run(db, chk):
                     bad.append("the node areas do not sum to the area of the triangles")
         chk.ob("C18-M3", "%s (%d nodes)" % (label, n), not bad, where=set_ar.ploc, function=set_ar.bn,
                construct="areas:%s" % label, detail="; ".join(bad[:3])[:500])
+    chk.absorb(db, "C07", {"C07-G3", "C07-G4"}, "C18-M4", "the public neighbour accessors of the mesh draw counts, "
+               "indices and distances from the implementation functions decided above and return exactly `count` "
+               "entries (shared with C07-G3 / G4)", pred=lambda o: "trimesh" in o["instance"], min_instances=2)
     chk.count_scenarios(n_sc, True)
